@@ -36,6 +36,9 @@ type ShardScript struct {
 
 // Replica scripts one StatefulSet for one cycle.
 type Replica struct {
+	// Absent (hostile replica of C19 only): the replicas manager does not list this replica in this cycle (a rolling
+	// update in progress, not ready yet, deleted): the other replica moves to another position in the list
+	Absent     bool          `json:"absent,omitempty"`
 	ShardsErr  bool          `json:"shardsErr,omitempty"`
 	ScaleErrAt []int         `json:"scaleErrAt,omitempty"` // indexes of ChangeScale calls (0,1) that fail
 	Shards     []ShardScript `json:"shards"`
